@@ -121,7 +121,7 @@ chk("C08", "exploration", "online component-wise oracle (OpenSSL direct) over ha
     "bytes are compared with the original, as are kty, bits, curve, is_private, alg, kid, use and key_ops.",
     "Trusted: OpenSSL key accessors on the harness' own key object.", "DESIGN.md 3/C08")
 chk("C19", "exploration", "exhaustive callback-program enumeration + differential against the callback-free twin, under ASan/UBSan",
-    "Every callback program up to length 2 (quick: 343 programs) / 3 (thorough: 6175) over 18 edits of the handed jwt_t is run "
+    "Every callback program up to length 2 (quick: 601 programs) / 3 (thorough: 14425) over 24 operations on the handed jwt_t (18 edits and 6 read-only programs: typed gets with right and wrong types, absent names, JSON gets, jwt_get_alg) is run "
     "against 32 claim policies x 17 tokens (each passing or failing exactly one check or the signature; HS256, ES256, unsigned) "
     "x 2 providers at a fixed clock and the verdict compared with the same checker without callback; every 7th program also "
     "returns one of 16 non-zero values (1, -1, 255, +-256, 512, +-65536, 2^24, INT_MIN, INT_MAX, ...) and must fail; 2.6e5 policy-matrix cells where the callback selects key+alg, the key only or the alg "
